@@ -94,7 +94,10 @@ func genCase(profile string) *rapid.Generator[Case] {
 			// activity racing with the shutdown
 			k := rapid.IntRange(0, 25).Draw(t, "nrace")
 			for i := 0; i < k; i++ {
-				switch r := rapid.IntRange(0, 10).Draw(t, "racek"); {
+				switch r := rapid.IntRange(0, 11).Draw(t, "racek"); {
+				case r == 11:
+					// time passes while Shutdown waits for callbacks that are still running
+					c.Prog = append(c.Prog, Op{K: "advance", D: rapid.SampledFrom([]int{1000, 3001, 10000, 60000}).Draw(t, "d")})
 				case r == 10 && rapid.Bool().Draw(t, "second"):
 					// a second Shutdown call racing with the first (returns nil or not-started, never panics)
 					c.Prog = append(c.Prog, Op{K: "foreign", Typ: "shutdown2"})
